@@ -46,6 +46,28 @@ class TablePass(AbstractPass):
         return self.ids.get(Path(path).read_text(), -1)
 
     def new(self, test_case, check_sanity=None):
+        c = self._cid(test_case)
+        alts = self.spec.get('fmt', {}).get(str(c))
+        if alts and check_sanity is not None:
+            # like LinesPass.__format: rewrite the file in place, keep the first alternative that passes the sanity check,
+            # otherwise put the file back (and, for a bailing pass, give up)
+            from cvise.utils.error import InsaneTestCaseError
+            keep = Path(test_case).read_text()
+            for a in alts:
+                Path(test_case).write_text(self.texts[a])
+                try:
+                    check_sanity()
+                except InsaneTestCaseError:
+                    continue
+                else:
+                    # an in-place rewrite by `new`: logged for the oracles (event F), not part of the model's log
+                    if _CUR.get('log') is not None:
+                        _CUR['log'].append(f"F{_CUR['keyidx'].get(repr(self), -1)}.{_CUR['files'].index(str(test_case))}.{a}")
+                    break
+            else:
+                Path(test_case).write_text(keep)
+                if self.spec.get('bail'):
+                    return None
         return self.spec['new'].get(str(self._cid(test_case)))
 
     def advance(self, test_case, state):
@@ -126,6 +148,7 @@ def run_real(scen, workdir, rng=None):
     keyidx = {}
     for i, p in enumerate(passes):
         keyidx.setdefault(repr(p), i)        # as the driver sees them: by repr
+    _CUR.update(log=obs['log'], keyidx=keyidx)
     logger = logging.getLogger()
     saved_level = logger.level
     records = []
@@ -274,7 +297,8 @@ def model_line(scen, obs, joint_key):
         adv = ','.join(f"{k.replace('.', ':')}:{v}" for k, v in p['adv'].items()) or '-'
         aos = ','.join(f"{k.replace('.', ':')}:{v}" for k, v in p['aos'].items()) or '-'
         tr = ','.join(f"{k.replace('.', ':')}:{v[0]}:{v[1]}:{v[2]}" for k, v in p['tr'].items()) or '-'
-        ps.append(f"key={keys[i]};maxT={on(p.get('maxT'))};new={new};adv={adv};aos={aos};tr={tr}")
+        fmt = ','.join(f"{k}:{':'.join(map(str, v))}" for k, v in p.get('fmt', {}).items() if v) or '-'
+        ps.append(f"key={keys[i]};maxT={on(p.get('maxT'))};new={new};adv={adv};aos={aos};tr={tr};fmt={fmt};bail={b(p.get('bail', False))}")
     groups = ';'.join(f"{k}={','.join(map(str, scen['groups'].get(k, []))) or '-'}" for k in ('first', 'main', 'last'))
     test = ';'.join(f"{k or '-'}:{v}" for k, v in scen['test'].items()) or '-'
     faults = ';'.join(f'{k}:{fault_tok(v)}' for k, v in scen.get('faults', {}).items()) or '-'
@@ -289,7 +313,7 @@ def render_obs(scen, obs):
     stats = ','.join(f"{i}:{'/'.join(map(str, obs['stats'].get(i, (0, 0, 0))))}" for i in ks) or '-'
     tot = [sum(obs['stats'].get(i, (0, 0, 0))[j] for i in ks) for j in range(3)]
     return (f"{obs['outcome']} disk={','.join(map(str, obs['disk'])) or '-'} worked={tot[0]} failed={tot[1]} executed={tot[2]} "
-            f"bug={obs['bug']} extra={obs['extra']} stats={stats} log={','.join(obs['log']) or '-'}")
+            f"bug={obs['bug']} extra={obs['extra']} stats={stats} log={','.join(e for e in obs['log'] if e[0] != 'F') or '-'}")
 
 
 # ------------------------------------------------------------------ real passes (text passes) under the shim
